@@ -325,5 +325,68 @@ func init() {
 				}
 			}
 		}},
+		{name: "alternating-growth-reorg-below-pruned-undo", thoroughOnly: true, opts: tn, run: func(s *scen) {
+			// OUTSIDE the all-histories theorem (BlockTree.depth: no branch longer than 2560) — documents what lies there.
+			// PreCheckBlock's depth rule compares the NEW block's height with the tip (< 2016 below it), not the fork point, so
+			// two branches can grow alternately: A (active) to f+2000, B (stored aside, never heavier) to f+1990, A to f+3990,
+			// B to f+3980 … then B overtakes. The reorganisation has to disconnect 3990 blocks, but CommitBlockTxs removed the
+			// undo files more than 2560 below the tip: UndoBlockTxs deletes the block's outputs, then panics on the missing
+			// file (known finding deep-reorg-pruned-undo-panic). The model panics at the same block.
+			s.bulk, s.quietBase = true, true
+			fork := s.blocks[0]
+			for i := 0; i < 3 && !s.dead; i++ {
+				fork = s.addBlock(fork, blockOpts{label: "base"})
+				s.deliver(fork)
+			}
+			a, b := fork, fork
+			grow := func(tip *rBlock, n int, label string) *rBlock {
+				for i := 0; i < n && !s.dead; i++ {
+					tip = s.addBlock(tip, blockOpts{label: label})
+					if out := s.deliver(tip); out != "ok" && !s.dead {
+						s.tieFail("deep-setup", fmt.Sprintf("%s block at height %d refused: %s", label, tip.Height, out))
+					}
+				}
+				return tip
+			}
+			a = grow(a, 2000, "a")
+			b = grow(b, 1990, "b")
+			a = grow(a, 1990, "a")
+			b = grow(b, 1990, "b")
+			if s.dead {
+				return
+			}
+			r.Hit("deep/branches-built(a=3990,b=3980 above the fork)")
+			s.bulk, s.quietBase = false, false
+			grow(b, 12, "b-overtakes") // at the block that makes B heavier the reorganisation starts
+		}},
+		{name: "prev-hash-shares-only-index-key", opts: tn, run: func(s *scen) {
+			// fixed 533896f3 (C05): a block that is valid on a known parent except that its previous-block field keeps only
+			// the first 8 bytes (the BlockIndex key) of the parent's hash was accepted (on the tip: became the tip; on a side
+			// branch with more work: reorganised to). Twins of a tip extension, of a side block, of a heavier side branch's
+			// last block, and of a block whose parent is not delivered yet — each in the four ways of changing bytes 8..31.
+			tip := s.base(103)
+			all := allCoins(s)
+			a := s.chainOf(tip, 2, all)
+			for m := 0; m < 4; m++ {
+				s.deliverPrefixTwin(a[0], m) // would extend the tip
+			}
+			s.deliver(a[0])
+			b := s.chainOf(tip, 3, all)
+			for m := 0; m < 4; m++ {
+				s.deliverPrefixTwin(b[0], m) // side block under the old tip
+			}
+			s.deliverAll(b[0], b[1])
+			for m := 0; m < 4; m++ {
+				s.deliverPrefixTwin(b[2], m) // would make the side branch the heavier one (reorganisation)
+				s.deliverPrefixTwin(a[1], m) // would extend the tip again
+			}
+			s.deliverPrefixTwin(a[1], 0) // the same twin twice
+			s.deliver(b[2])              // the real one: reorganisation
+			s.idle()
+			s.deliverAll(a[1])
+			c := s.chainOf(b[2], 2, all)
+			s.deliverPrefixTwin(c[1], 1) // parent not delivered: orphan either way
+			s.deliverAll(c...)
+		}},
 	}
 }
